@@ -16,6 +16,8 @@ CLAIMED['C10'] = dict(text="Theorems (props/C10.v) for ALL well-formed forests a
              technique="Coq proofs of functional specifications + exact differential correspondence (vm_compute vs navis)", ref="6/C10")
 CLAIMED['C05'] = dict(text="The model IS the definition the property names (walk parent links, sum edge lengths). Theorems (props/C05.v): root distance obeys the parent recurrence; the geodesic distance is symmetric, 0 on the diagonal, finite exactly when the two chains share an ancestor; directed distance is defined exactly for ancestors and agrees with the undirected one; limit and adjacency-by-id specs; partition_okb/shape_okb, the checkers run on EVERY segments/small_segments output, are proved to accept only partitions of the edge set into child->parent paths with the right end types (soundness); the model's own small segments are chains (their coverage is partial, see theorem name). Tie: label-keyed comparison of geodesic_matrix/dist_between/dist_to_root/distal_to/cable_length/adjacency with the model (exact on the integer-length lattice stream), all from_/directed/weight/limit settings, three backends.",
              technique="Coq proofs about the definitional model + verified checkers applied to implementation outputs + differential correspondence", ref="6/C05")
+CLAIMED['C02'] = dict(text="Abstract cache machine (versions, md5 snapshot, sticky stale flag, lock counter, per-view cache) with theorem C02_read_fresh: for EVERY history of edits, reads, clears, locked sections, carried caches, copies and pickle round trips, an unlocked read of a guarded TEMP_ATTR view returns the value built from the current table (invariant: an out-of-date entry is always detectable). The facts the theorem needs about the code (TEMP_ATTR, CORE_DATA, which properties are wrapped in temp_property, all 51 _clear_temp_attr(exclude=...) call sites, __getstate__ pops, copy()'s stale branch, shapes of temp_property/_clear_temp_attr/is_stale) are REGENERATED from /repo by translate/cache.py on every run and the obligations are re-discharged by vm_compute (C02_source_meets_obligations, C02_read_fresh_current_source); necessity of each obligation is shown by refutation examples. Tie of the machine's Carry assumption and of everything else: random interleavings of warming reads, navis ops and direct edits on the real navis, each followed by reads compared with a freshly constructed neuron.",
+             technique="Coq invariant proof over operation histories of an abstract machine + source-to-Coq translator (Python ast) regenerating the obligations + differential correspondence", ref="6/C02")
 PENDING = {}
 props = [json.loads(l) for l in open(os.path.join(V, 'properties.jsonl'))]
 checks, na = [], []
